@@ -194,6 +194,16 @@ def handler (c : Cfg) (pre : Pre) (tasks : List Task) (commitOk : Bool) (d0 : Db
       | (d', true) => ⟨true, .done, dClose d'⟩
       | (d', false) => ⟨!c.commitErrFail, .commitErr, dClose d'⟩
 
+/-- The request's context.  `cancelAt = some k`: the context is cancelled (the client went away, a
+deadline passed) and this is visible from just before operation `k` starts.  handler.go Handler
+never reads `r.Context()`, and database.Open / Begin / Exec / Query / Commit / Rollback are the
+context-free database/sql calls, so on the code that exists the run does not depend on it
+(T1 fails closed as soon as Handler mentions the request's context; the harness cancels real
+request contexts at every operation boundary and compares with this answer). -/
+def handlerCtx (c : Cfg) (pre : Pre) (tasks : List Task) (commitOk : Bool) (_cancelAt : Option Nat)
+    (d0 : Db) : Result :=
+  handler c pre tasks commitOk d0
+
 /-! ### what the property talks about -/
 
 /-- effect ids of the tasks that write, numbering from `i` -/
